@@ -1,9 +1,17 @@
-import os
+import os, subprocess, sys, concurrent.futures as cf
+
+
+def _c16_gen(verif):
+    sys.path.insert(0, os.path.join(verif, 'harness'))
+    try:
+        import c16_gen
+    finally:
+        sys.path.pop(0)
+    return c16_gen
 
 
 def _c16_keys(tier):
-    """Structured 64-bit constants for the compile-time table, canonical order, no duplicates.
-    Expected values are computed here (Python integers), independently of the C reference."""
+    """Structured 64-bit constants for the compile-time table, canonical order, no duplicates."""
     full = (1 << 64) - 1
     out, have = [], set()
 
@@ -36,71 +44,229 @@ def _c16_keys(tier):
 
 
 def _c16_prebuild(repo, verif, builddir, tier):
-    """c16_table.inc: one C16_K(K, popcount, lowest-set-bit) line per constant. The harness expands
-    C16_K into a static initialiser { K, const_pop(K), const_lssb(K), ... }: the macros are evaluated by
-    the compiler on literal arguments (which also shows they are constant expressions). The values are
-    compared by the harness at run time rather than by _Static_assert lines, so that a wrong value is a
-    replayable VIOLATION with the offending constant and not a build error."""
-    keys = _c16_keys(tier)
-    with open(os.path.join(builddir, 'c16_table.inc'), 'w') as f:
-        f.write('/* generated by bin/checks.d/C16.py (%s tier): %d constants */\n' % (tier, len(keys)))
-        for k in keys:
-            pop = bin(k).count('1')
-            lssb = (k & -k).bit_length() - 1 if k else -1
-            f.write('C16_K(0x%016xULL, %d, %d)\n' % (k, pop, lssb))
+    """The generated tables of constant-expression arguments (harness/c16_gen.py):
+    c16_mtab_small.inc  the argument-form families for the macros (LP64): literals of every suffix and base, casts,
+                        operator expressions - used by every build variant
+    c16_mtab_big.inc    the same plus the bulk of structured 64-bit ULL literals - the primary gcc -O2 build only
+    c16_ftab.inc        the argument-form families for the four functions (values below 2^32)
+    The user unit expands const_pop(arg) / const_lssb(arg) in static initialisers and calls f(arg); the values are compared
+    by the harness at run time rather than by _Static_assert, so that a wrong value is a replayable VIOLATION with the
+    offending argument and not a build error."""
+    g = _c16_gen(verif)
+    forms = g.macro_forms(64)
+    have = set(t for t, _ in forms)
+    bulk = [('0x%016xULL' % k, k) for k in _c16_keys(tier)]
+    g.write_mtab(os.path.join(builddir, 'c16_mtab_small.inc'), 'LP64 argument forms', forms)
+    g.write_mtab(os.path.join(builddir, 'c16_mtab_big.inc'), 'LP64 argument forms + structured literals (%s tier)' % tier,
+                 forms + [b for b in bulk if b[0] not in have])
+    g.write_ftab(os.path.join(builddir, 'c16_ftab.inc'), 'LP64 argument forms of the function calls', g.func_forms(64))
+
+
+_ASSERT_H = '''/* <assert.h> of the ILP32 build of check C16 (the sandbox has no 32-bit C library headers) */
+#undef assert
+#ifdef NDEBUG
+#define assert(e) ((void)0)
+#else
+void __assert_fail(const char *, const char *, unsigned int, const char *) __attribute__((noreturn));
+#define assert(e) ((e) ? (void)0 : __assert_fail(#e, __FILE__, __LINE__, __func__))
+#endif
+'''
+
+
+def _c16_prebuild_ilp32(repo, verif, builddir, tier):
+    """ILP32 (gcc -m32 -ffreestanding): (1) the compile-time table: c16_user.c -DC16U_MACROS -DC16U_TABLE_ONLY compiled to an
+    object whose table lies in a section of its own, read back with objcopy -O binary - nothing is run; (2) the libc-free
+    helper program(s) c16_ilp32_<opt>.bin = c16_ilp32.c + c16_user.c (both sections) + c16_fptr.c + librfn/bitops.c.
+    A step that fails (no -m32 support, a library source that needs headers the sandbox does not have for 32 bits) leaves
+    that piece out with a note; it is never a build error of the check."""
+    g = _c16_gen(verif)
+    h = os.path.join(verif, 'harness')
+    g.write_mtab(os.path.join(builddir, 'c16_mtab_ilp32.inc'), 'ILP32 argument forms', g.macro_forms(32))
+    g.write_ftab(os.path.join(builddir, 'c16_ftab_ilp32.inc'), 'ILP32 argument forms of the function calls', g.func_forms(32))
+    inc = os.path.join(builddir, 'c16_inc32')
+    os.makedirs(inc, exist_ok=True)
+    with open(os.path.join(inc, 'assert.h'), 'w') as f:
+        f.write(_ASSERT_H)
+    base = ['gcc', '-m32', '-ffreestanding', '-fno-stack-protector', '-fno-pie', '-g', '-std=gnu11', '-Wall',
+            '-Wno-unused-function', '-Wno-unused-variable', '-fno-strict-aliasing', '-DLIBRFN_VERIF=1', '-DC16_ILP32',
+            '-isystem', inc, '-I' + h, '-I' + os.path.join(repo, 'include'), '-I' + os.path.join(repo, 'librfn'), '-I' + builddir]
+    opts = ['-O2'] if tier == 'quick' else ['-O2', '-Os', '-O0']
+    user = os.path.join(h, 'c16_user.c')
+    jobs = {}   # object -> (command, fallback command or None)
+
+    def obj(name):
+        return os.path.join(builddir, 'c16i_' + name + '.o')
+
+    jobs['tab'] = (base + ['-O2', '-DC16U_MACROS', '-DC16U_TABLE_ONLY', '-DC16U_TABLE_SECTION="c16tab"', '-c', user, '-o', obj('tab')], None)
+    for o in opts:
+        t = o[1:]
+        jobs['lib' + t] = (base + [o, '-c', os.path.join(repo, 'librfn', 'bitops.c'), '-o', obj('lib' + t)], None)
+        jobs['uf' + t] = (base + [o, '-DC16U_FUNCS', '-c', user, '-o', obj('uf' + t)], None)
+        jobs['um' + t] = (base + [o, '-DC16U_MACROS', '-c', user, '-o', obj('um' + t)], None)
+        jobs['fp' + t] = (base + [o, '-c', os.path.join(h, 'c16_fptr.c'), '-o', obj('fp' + t)],
+                          base + [o, '-c', os.path.join(h, 'c16_fptr_none.c'), '-o', obj('fp' + t)])
+        jobs['main' + t] = (base + [o, '-mpopcnt', '-c', os.path.join(h, 'c16_ilp32.c'), '-o', obj('main' + t)], None)
+
+    def run(name):
+        cmd, fb = jobs[name]
+        r = subprocess.run(cmd, capture_output=True, text=True)
+        if r.returncode and fb:
+            r = subprocess.run(fb, capture_output=True, text=True)
+        err = ''
+        if r.returncode:
+            lines = [l for l in r.stderr.splitlines() if 'error' in l] or r.stderr.splitlines() or ['?']
+            err = lines[0][:200]
+        return name, err
+
+    failed = {}
+    with cf.ThreadPoolExecutor(max_workers=int(os.environ.get('VERIF_JOBS', os.cpu_count() or 4))) as ex:
+        for name, err in ex.map(run, sorted(jobs)):
+            if err:
+                failed[name] = err
+    notes = []
+    # (1) the table
+    blob = b''
+    table_ok = 0
+    if 'tab' in failed:
+        notes.append('the -m32 table object does not compile: ' + failed['tab'])
+    else:
+        binp = os.path.join(builddir, 'c16i_tab.bin')
+        r = subprocess.run(['objcopy', '-O', 'binary', '-j', 'c16tab', obj('tab'), binp], capture_output=True, text=True)
+        if r.returncode or not os.path.exists(binp):
+            notes.append('objcopy could not extract the table section: ' + (r.stderr.strip().splitlines() or ['?'])[0][:200])
+        else:
+            blob = open(binp, 'rb').read()
+            table_ok = 1
+    # (2) the helpers
+    for o in opts:
+        t = o[1:]
+        out = os.path.join(builddir, 'c16_ilp32_%s.bin' % t)
+        bad = [n for n in ('lib' + t, 'uf' + t, 'um' + t, 'fp' + t, 'main' + t) if n in failed]
+        if bad:
+            notes.append('the -m32 %s helper was not built: %s' % (o, failed[bad[0]]))
+            continue
+        r = subprocess.run(['gcc', '-m32', '-nostdlib', '-static', '-no-pie'] + [obj(n + t) for n in ('main', 'uf', 'um', 'fp', 'lib')] +
+                           ['-o', out], capture_output=True, text=True)
+        if r.returncode:
+            notes.append('the -m32 %s helper does not link: %s' % (o, (r.stderr.strip().splitlines() or ['?'])[0][:200]))
+    with open(os.path.join(builddir, 'c16_ilp32_gen.h'), 'w') as f:
+        f.write('/* generated by bin/checks.d/C16.py: the table section of the -m32 object, %d bytes */\n' % len(blob))
+        f.write('#define C16_ILP32_TABLE_OK %d\n' % table_ok)
+        f.write('#define C16_ILP32_NOTE "%s"\n' % '; '.join(notes).replace('\\', '/').replace('"', "'"))
+        f.write('static const unsigned char c16_ilp32_table[] = {\n')
+        for i in range(0, len(blob), 40):
+            f.write(' ' + ''.join('%d,' % b for b in blob[i:i + 40]) + '\n')
+        f.write(' 0 };\n')
+
+
+_FP = ('@VERIF@/harness/c16_fptr.c', [], '@VERIF@/harness/c16_fptr_none.c',
+       'the pointer-call family of the four functions (taking their addresses)')
+
+
+def _ilp32(name, opt, tiers):
+    return dict(name=name, src=['harness/c16_bitops.c'], workers=16, tiers=tiers,
+                cflags=['-DC16_PART_ILP32', '-DC16_ILP32_OPT="%s"' % opt, '-DC16_ILP32_BIN="@BUILD@/c16_ilp32_%s.bin"' % opt[1:]],
+                deadline=dict(quick=300, thorough=900), prebuild=_c16_prebuild_ilp32)
 
 
 CHECK = dict(
     level='exploration',
     parts=[
-        dict(name='c16f', src=['harness/c16_bitops.c'], workers=16, cflags=['-DC16_PART_FUNCS', '-Wno-parentheses'],
-             deadline=dict(quick=240, thorough=600)),
-        dict(name='c16m', src=['harness/c16_bitops.c'], workers=16, cflags=['-DC16_PART_MACROS', '-Wno-parentheses'],
-             deadline=dict(quick=240, thorough=1500), prebuild=_c16_prebuild),
+        dict(name='c16f', src=['harness/c16_bitops.c'], lib=['bitops.c'], workers=16, cflags=['-DC16_PART_FUNCS'],
+             objs=[('@VERIF@/harness/c16_user.c', ['-DC16U_FUNCS']), _FP],
+             deadline=dict(quick=300, thorough=900), prebuild=_c16_prebuild),
+        dict(name='c16m', src=['harness/c16_bitops.c'], lib=['bitops.c'], workers=16, cflags=['-DC16_PART_MACROS'],
+             objs=[('@VERIF@/harness/c16_user.c', ['-DC16U_MACROS'])],
+             deadline=dict(quick=300, thorough=1500), prebuild=_c16_prebuild),
+        _ilp32('c16i', '-O2', ('quick', 'thorough')),
+        _ilp32('c16iOs', '-Os', ('thorough',)),
+        _ilp32('c16iO0', '-O0', ('thorough',)),
     ],
-    rule='part c16f: every 32-bit x (ilog2: every x > 0) is passed to the real bitcnt/clz/ctz/ilog2 and compared with '
-         '__builtin_popcount/clz/ctz (the builtins are cross-checked against bit-by-bit loops at start-up); one evaluation = '
-         'one call compared. part c16m: const_pop/const_lssb of the real constexpr.h evaluated at run time on the structured '
-         '64-bit patterns and the lanes given under bounds, and evaluated by the compiler (static initialisers of a generated '
-         'table of literal constants) - each compared with __builtin_popcountll / __builtin_ctzll (-1 for 0), and the '
-         'compile-time value compared with the run-time value of the same constant read through a volatile. '
-         'distinct = distinct (work block, result tuple) pairs where every result agreed with the definition: for c16f '
-         '(2^24-block of x, bitcnt, clz, ctz), for c16m (2^20-unit or structured set, const_pop, const_lssb), counted with '
-         'a bitmap per block; blocks are disjoint between workers so the sum does not count anything twice. It is a '
-         'conservative count: all arguments are distinct by construction (each enumerated once) but only the result tuples '
-         'are counted. distinct_result_tuples_within_one_worker_max is the same without the block tag.',
+    rule='The harness never includes a librfn header: the calls and macro expansions live in a "user" unit (harness/c16_user.c) that '
+         'includes only <librfn/bitops.h> resp. <stdint.h> + <librfn/constexpr.h>, exactly as a user of the library writes them; '
+         'bitops.c is linked as a separate object. One evaluation = one result compared with the definition (compiler builtins '
+         '__builtin_popcount/clz/ctz(ll), -1 / 32 for zero, cross-checked against bit-by-bit loops at every start-up); a result '
+         'keeps its exact value whatever type the expression has (an unsigned 2^64-1 is not -1). '
+         'part c16f: (1) bitcnt(x), clz(x), ctz(x), ilog2(x) with a uint32_t variable for every 32-bit x (ilog2: x > 0); (2) the same '
+         'through pointers to the four functions - all 2^32 when the public header defines one of the names as a macro (then the '
+         'out-of-line function is different code) and in the thorough tier, else every <=3-bit pattern, contiguous mask and '
+         'complement; and the out-of-line functions again on those structured values through an assembly trampoline that fills every '
+         'caller-saved register with one of three patterns first (a result must not depend on what the registers held: this is '
+         'how a builtin with an undefined result shows); (3) argument-form families: run-time values of 15 integer types (int, unsigned, uint8/16/32/64_t, int64_t, char, '
+         'signed char, short, long, unsigned long, long long, unsigned long long, _Bool: every non-negative value of types up to 16 '
+         'bits, structured values of wider types), 19 operator expressions (one per precedence level of C: * + - << >> < == & ^ | '
+         '&& || ?: and the unary operators) over uint8_t and uint32_t run-time operands written as the argument without '
+         'parentheses, and a generated table of constant-expression arguments (literals of every suffix in hex/decimal/octal, '
+         'casts, sizeof, character constants, the same operator expressions over literals). '
+         'part c16m: const_pop/const_lssb (a) at run time on a uint64_t variable: structured 64-bit patterns and lanes (bounds), '
+         '(b) at run time on the same typed-value and operator-expression families (operands uint8_t, uint32_t, uint64_t), '
+         '(c) evaluated by the compiler in static initialisers of the generated table of constant-expression arguments - each '
+         'compared with the definition, and the compile-time value with the run-time value of the same argument. The value of '
+         'every generated constant argument is computed by a model of C integer constant expressions in Python and compared with '
+         'the compiler\'s own (uint64_t)(argument); a disagreement stops the run as an internal error. Negative arguments and '
+         'signed overflow are not generated (counted as skipped_out_of_scope where the type decides at run time). '
+         'part c16i (ILP32, gcc -m32 -ffreestanding: int, long and pointers 32 bits wide, as on the library\'s Cortex-M targets): the '
+         'same user unit and bitops.c compiled for ILP32; the compile-time table is read back from the object file with objcopy '
+         '(nothing is run); all 2^32 arguments of the four functions, the structured patterns and the argument-form families are '
+         'evaluated by a libc-free 32-bit helper program (harness/c16_ilp32.c) that the part drives through a pipe; its counters '
+         'carry the tag [gcc -m32 -O2]. '
+         'distinct = distinct (work block, result tuple) pairs where every result agreed with the definition: per 2^24-block of x '
+         '(bitcnt, clz, ctz), per lane unit / per worker share of a family (const_pop, const_lssb) resp. (function, result); work '
+         'blocks are disjoint between workers, so the sum counts no case twice, but only result tuples are counted, not arguments '
+         '(all arguments are distinct by construction). A failing case of an argument-form family whose plain form (uint32_t / '
+         'uint64_t variable of the same value) fails too is reported under the signature of the plain form (smallest failing '
+         'argument / first failing structured pattern), so that one defect keeps one signature per build.',
     bounds=dict(
-        quick='functions: all 2^32 arguments (complete). macros at run time: 0, ~0, every 1-, 2- and 3-bit pattern and every '
-              'contiguous mask of 64 bits, each with its complement; 8 lanes (low half sweeping with high half in '
-              '{0,1,0x80000000,0xffffffff}, and vice versa) where the sweeping half takes all 2^24 values v and v<<8. '
-              'macros at compile time: 4771 literals (0, ~0, 1-bit and complement, 2-bit, contiguous masks, 3-bit over 17 '
-              'boundary positions).',
-        thorough='functions: all 2^32 arguments (complete). macros at run time: as quick plus every 4-bit pattern, and the 8 '
-                 'lanes sweep all 2^32 values of the half. macros at compile time: 8144 literals (3-bit patterns over 30 '
-                 'positions).'),
+        quick='functions: all 2^32 arguments by plain call (complete); by pointer every <=3-bit pattern/mask/complement (all 2^32 if '
+              'the header defines a name as a macro) plus the same values x 3 register patterns (~1.4*10^5 calls); typed run-time arguments ~4.7*10^5 cases, operator-expression arguments '
+              '~1.3*10^5, 1868 constant-expression arguments x 4 functions. macros at run time: 0, ~0, every 1-, 2- and 3-bit '
+              'pattern and every contiguous mask of 64 bits, each with its complement; 8 lanes (low half sweeping with high half in '
+              '{0,1,0x80000000,0xffffffff}, and vice versa) where the sweeping half takes all 2^24 values v and v<<8; typed '
+              '(~1.5*10^5) and operator-expression (~1.4*10^5) arguments. macros at compile time: 8093 constant-expression '
+              'arguments (3328 argument forms + 4765 structured ULL literals: 0, ~0, 1-bit and complement, 2-bit, contiguous '
+              'masks, 3-bit over 17 boundary positions). Build variants: lanes 2^16 values at 3 alignments and only the 3328 '
+              'argument forms in the table. ILP32: gcc -m32 -O2 (functions complete, macro patterns/forms, 3872 table entries, no lanes)',
+        thorough='as quick, and: functions through pointers all 2^32; typed families with 3-bit patterns; macros at run time every '
+                 '4-bit pattern, lanes sweep all 2^32 values of the half (variants: 2^24 at 2 alignments); table with 3-bit '
+                 'patterns over 30 positions (11466 entries); ILP32 also at -Os and -O0'),
     assumptions=[
         'gcc builtins __builtin_popcount/clz/ctz(ll) are the reference; they are validated against naive bit loops on '
-        '~5*10^5 structured values at every start-up, not on every argument',
+        '~5*10^5 structured values at every start-up (also inside the ILP32 helper), not on every argument',
         'the 2^64 argument space of const_pop/const_lssb is covered on sub-spaces only (coverage.exhaustive is false; '
-        'parts.c16f.exhaustive is 1 for the four functions)',
-        '"compile-time constant" is observed as a static initialiser with a literal argument compiled by the same gcc at -O2; '
-        '"run-time value" as the same expression on a loop variable / volatile load',
-        'ilog2(0) is outside the statement (assert) and is not called',
+        'exhaustive_functions is 1 for the four functions)',
+        '"compile-time constant" is observed as a static initialiser whose argument is a constant expression; '
+        '"run-time value" as the same macro on a function parameter of a separately compiled unit',
+        'ilog2(0) is outside the statement (assert) and is never called; negative arguments of signed types are outside the '
+        'statement (what a bit counter makes of a negative int is not stated) and are never passed',
+        'ILP32 is x86 -m32 (int/long/pointer 32 bit, little endian), not ARM: word sizes and integer conversions are those of the '
+        'real targets, code generation and char signedness (covered by the -funsigned-char variant on LP64) are not; the 32-bit '
+        'build has no C library in this sandbox, so <assert.h> is a stub provided by the check and the helper is freestanding',
+        'if -m32 objects cannot be built or 32-bit programs cannot be run, the ILP32 part degrades to a note (coverage.notes) '
+        'instead of an error: the table read-back needs only the compiler and objcopy, the rest needs 32-bit execution',
+        'a result far outside the range of a bit count is named "out-of-range" in the signature (its value is in the message): '
+        'such values are usually indeterminate (undefined builtin results) and would make the signature unstable',
     ],
 )
 CHECK.update(
-    technique='bounded-exhaustive enumeration: all 2^32 arguments of the four functions; structured sub-spaces of the 2^64 '
-              'macro arguments at run time and at compile time',
-    level_text='bitcnt, clz, ctz and ilog2 are executed on every one of the 2^32 possible arguments (ilog2 on all x > 0) and '
-               'compared with the compiler builtins: for the functions the property is decided completely. const_pop and '
-               'const_lssb are checked on every pattern with at most 3 (thorough: 4) set bits, every contiguous mask, the '
-               'complements of those, and 8 lanes in which one 32-bit half takes every value (quick: every 24-bit value at '
-               'two alignments) while the other half is 0, 1, 0x80000000 or 0xffffffff; 4771 (thorough: 8144) literals are also '
-               'evaluated by the compiler and compared with both the definition and the run-time result.',
+    technique='bounded-exhaustive enumeration: all 2^32 arguments of the four functions (LP64 build variants and an ILP32 build); '
+              'structured sub-spaces of the 2^64 macro arguments at run time and at compile time; exhaustive families of '
+              'argument types and syntactic argument forms',
+    level_text='bitcnt, clz, ctz and ilog2 are called from a translation unit that includes only the public header, on every one '
+               'of the 2^32 possible arguments (ilog2 on all x > 0), and compared with the compiler builtins: for the functions the '
+               'property is decided completely, on LP64 in six builds (gcc -O2, -Os, -O0, -DNDEBUG, -funsigned-char; clang in the '
+               'thorough tier) and on ILP32 (gcc -m32). const_pop and const_lssb are checked on every pattern with at most 3 '
+               '(thorough: 4) set bits, every contiguous mask, the complements of those, and 8 lanes in which one 32-bit half takes '
+               'every 24-bit value at two alignments (thorough: every value) while the other half is 0, 1, 0x80000000 or 0xffffffff. '
+               'Both the functions and the macros are also exercised with arguments of every integer type and with operator '
+               'expressions and literals of every spelling passed unparenthesised, at run time and (macros) as constant expressions '
+               'evaluated by the compiler: 8093 (thorough: 11466) static initialisers are compared with the definition and with '
+               'the run-time result.',
     level_note='Not a proof for the macros: 2^64 arguments cannot be enumerated; the covered sub-spaces follow the recursive '
-               'halving structure of the macros (each half complete, the other half from a boundary set). Trusted: gcc '
-               'builtins (self-checked against loops on a structured subset).',
+               'halving structure of the macros (each half complete, the other half from a boundary set), the C integer types and '
+               'the precedence levels of C operators. Trusted: gcc builtins (self-checked against loops on a structured subset), '
+               'the compiler\'s evaluation of (uint64_t)(argument).',
     design_ref='DESIGN.md section 4, C16',
 )
 
-CHECK['variants'] = ['c16f']
+CHECK['variants'] = ['c16f', 'c16m']
+CHECK['variant_unsigned_char'] = True
